@@ -64,6 +64,7 @@ def plan(gene, case):
     if hap.count(DEL) == 2:
         extra = []
         if len(gene.regions) < 2:
+            plan.reason = "deldel-without-pseudogene"
             return None  # no read anywhere in the locus: C19's domain (must be rejected), not C01's
     copies = []
     for nm in hap + extra:
@@ -72,6 +73,11 @@ def plan(gene, case):
         else:
             c, m, maj = simreads.allele_copy(gene, nm)
             copies.append((c, frozenset(m), maj, nm))
+    if any(op.startswith("del") and "ins" in op[3:] for _, ms, _, _ in copies for _, op in ms):
+        # a planted allele carries a deletion-insertion: the statement's variant kinds are SNPs, insertions and deletions, and the read
+        # parser has no notion of a combined del-ins observation (the simulator does not produce one either)
+        plan.reason = "delins-variant"
+        return None
     ncomplete = 2
     complete, rest = copies[:ncomplete], copies[ncomplete:]
     return complete + rest
@@ -102,7 +108,7 @@ def _run_generated(case):
     gene = Gene(db, genome=build)
     copies = plan(gene, case)
     if copies is None:
-        return Result([], ["inadmissible:deldel-without-pseudogene"], False)
+        return Result([], ["inadmissible:" + getattr(plan, "reason", "deldel-without-pseudogene")], False)
     sim = simreads.Sim(gene, seed=case["sim_seed"])
     rl = case["rl"]
     step = max(1, rl // case["depth"])
